@@ -10,6 +10,7 @@
 -/
 import TypelibModel.Props.C13
 import TypelibModel.Props.Dispatch
+import TypelibModel.Props.C05
 namespace Typelib.C15
 open Typelib
 
@@ -54,5 +55,42 @@ theorem optional_any (env : Env) (L : Leaves) (n : Nat) (x : Val) :
 
 example : um [] { sl := fun s => .ok (.str s), um := fun _ v => .ok v, mar := fun _ v => .ok v } 3
     (.coll .list .any) (.list [.opaque ['o'], .int 1]) = .ok (.list [.opaque ['o'], .int 1]) := by rfl
+
+/-! ### Construction, as a theorem about the model of the routine compiler (Model/Compile.lean)
+
+  `compileU` / `compileM` model `typelib.unmarshaller` / `typelib.marshaller` (handler choice per annotation
+  kind re-decided against the regenerated dispatch tables: `C05.compile_dispatch_*`; tied to the real trees by
+  the `compile:*` correspondence of `./check C05`).  Side conditions, both decidable: every class the
+  annotation or a field annotation mentions is declared and Literal members are primitives (`compilable`,
+  `compilableEnv`; `Any` positions, arbitrary unions, wrappers and cycles included). -/
+
+/-- **Every annotation of U⁺ yields working routines**: both compilers return a tree the verified validator
+    accepts for the (wrapper-erased) annotation — no node of an unrecognised class, every member served by the
+    routine of its own annotation. -/
+theorem compile_total (env : Env) (t : Ty) (hE : compilableEnv env = true) (ht : compilable env t = true) :
+    (adequateU (eraseEnv env) (erase t) (compileU env t) = true ∧ (compileU env t).hasUnknown = false)
+    ∧ (adequateM (eraseEnv env) (erase t) (compileM env t) = true ∧ (compileM env t).hasUnknown = false) :=
+  ⟨⟨C05.compile_adequate_unmarshal env t hE ht,
+    C05.adequate_noUnknown _ _ (C05.compile_adequate_unmarshal env t hE ht)⟩,
+   ⟨C05.compile_adequate_marshal env t hE ht,
+    C05.adequate_noUnknown _ _ (C05.compile_adequate_marshal env t hE ht)⟩⟩
+
+/-- … and the routines work: on every input they compute the compositional denotation of the annotation. -/
+theorem compile_works (env : Env) (L : Leaves) (t : Ty) (hE : compilableEnv env = true) (ht : compilable env t = true) :
+    (∀ n x, runU (eraseEnv env) L n (compileU env t) x = um (eraseEnv env) L n (erase t) x)
+    ∧ (∀ n x, runM (eraseEnv env) L n (compileM env t) x = mar (eraseEnv env) L n (erase t) x) :=
+  ⟨C05.compile_sound_unmarshal env L t hE ht, C05.compile_sound_marshal env L t hE ht⟩
+
+/-- In the vocabulary of C01 / C13 (`wfEnv`, `wfTy`). -/
+theorem compile_total_wf {S : Scalar → Bool} (env : Env) (t : Ty) (hE : wfEnv S env = true) (ht : wfTy S env t = true) :
+    (adequateU (eraseEnv env) (erase t) (compileU env t) = true ∧ (compileU env t).hasUnknown = false)
+    ∧ (adequateM (eraseEnv env) (erase t) (compileM env t) = true ∧ (compileM env t).hasUnknown = false) :=
+  compile_total env t (C05.wfEnv_compilableEnv hE) (C05.wfTy_compilable t ht)
+
+/-- Non-vacuity: a recursive class behind a list, an alias and an `Any` position. -/
+example : adequateU (eraseEnv C05.exEnv) (erase (.tuple [.coll .list (.wrap .alias (.cls 0)), .any]))
+      (compileU C05.exEnv (.tuple [.coll .list (.wrap .alias (.cls 0)), .any])) = true :=
+  (compile_total C05.exEnv _ (by decide) (by decide)).1.1
+
 
 end Typelib.C15
